@@ -404,6 +404,16 @@ fn distributor(cfg: &Cfg, rep: &mut Report, h: u64, variant: u32) {
         e.register(AirdropContract, (BytesN::from_array(e, &root), token.clone(), pot, funder.clone()))
     } else {
         let c = e.register(DistC, (variant,));
+        // before any root is set nothing can be claimed - not even what the first tree will hold
+        {
+            let (i0, u0, a0) = recs[0];
+            e.mock_all_auths();
+            let early: Result<(), Fail> = invoke(e, &c, "claim", args!(e, i0, users[u0], a0, to_vec(e, &proofs[0])));
+            let flag: bool = invoke(e, &c, "is_claimed", args!(e, i0)).must("is_claimed");
+            rep.evaluations += 2;
+            rep.case(format!("dist-{variant}/claim-before-any-root/{}", tag(&early)));
+            rep.check("claim", early.is_err() && !flag, &format!("C17/claim/dist-{variant}/claimed-before-any-root-was-set"), || format!("claim(index {i0}) before set_root: {early:?}, is_claimed {flag}"));
+        }
         invoke::<()>(e, &c, "set_root", args!(e, BytesN::from_array(e, &root))).unwrap();
         c
     };
